@@ -181,6 +181,10 @@ func (e c16Env) exec(a c16Assign, dbOverride, logLayoutFor string, cmd ...string
 		os.MkdirAll(filepath.Join(e.home, ".hranoprovod"), 0o755)
 		os.WriteFile(filepath.Join(e.home, ".hranoprovod", "config"), []byte(other), 0o644)
 	}
+	if len(a.String())%5 == 1 {
+		// the switch that would drop the book, spelled with an explicit false value: nothing changes
+		args = append(args, []string{"--no-database=false", "--no-database=0", "--no-database=F"}[len(a.String())%3])
+	}
 	layoutLevel := a.level("date-format")
 	layout := c16Layouts[layoutLevel]
 	if a.flag["database"] && dbOverride == "" {
@@ -532,13 +536,18 @@ func runC16(c *core.Ctx) {
 		run.WriteFiles(sd, map[string]string{
 			"deep/book_t.yaml": "marker_db_target:\n  x: 1\nsecond:\n  x: 2\nthird:\n  x: 3\n", "deep/log_t.yaml": "2021/01/24:\n  marker_log_target: 1\n2021/01/25:\n  marker_log_target: 2\n",
 			"book_t.yaml": "marker_db_decoy:\n  x: 1\n", "log_t.yaml": "2021/01/24:\n  marker_log_decoy: 1\n", "deep/inner/keep": "",
+			// files whose names are what other programs use for "standard input" / an option
+			"dash/-": "marker_db_target:\n  x: 1\nsecond:\n  x: 2\nthird:\n  x: 3\n", "dashlog/-": "2021/01/24:\n  marker_log_target: 1\n2021/01/25:\n  marker_log_target: 2\n",
 		})
 		os.Symlink(filepath.Join("deep", "inner"), filepath.Join(sd, "lnk"))
-		for _, shape := range []struct{ what, db, log string }{
-			{"a path that leaves a symbolic link through ..", "lnk/../book_t.yaml", "lnk/../log_t.yaml"},
-			{"a path with doubled separators and ./ segments", "deep//./book_t.yaml", "./deep/.//log_t.yaml"},
-			{"an absolute path that leaves a symbolic link through ..", sd + "/lnk/../book_t.yaml", sd + "/lnk/../log_t.yaml"},
+		for _, shape := range []struct{ what, db, log, sub string }{
+			{"a path that leaves a symbolic link through ..", "lnk/../book_t.yaml", "lnk/../log_t.yaml", ""},
+			{"a path with doubled separators and ./ segments", "deep//./book_t.yaml", "./deep/.//log_t.yaml", ""},
+			{"an absolute path that leaves a symbolic link through ..", sd + "/lnk/../book_t.yaml", sd + "/lnk/../log_t.yaml", ""},
+			{"a book whose name is a single dash", "-", "../deep/log_t.yaml", "dash"},
+			{"a log whose name is a single dash", "../deep/book_t.yaml", "-", "dashlog"},
 		} {
+			sd := filepath.Join(sd, shape.sub)
 			for _, via := range []string{"flag", "env", "config"} {
 				var pre []string
 				env := map[string]string{}
